@@ -98,6 +98,9 @@ class Evaluator:
                     r = ga(base, e.attr)
                     if r is not NotImplemented:
                         return r
+                import struct as _struct
+                if isinstance(base, _struct.Struct) and e.attr in ("size", "format"):
+                    return getattr(base, e.attr)
                 raise Unknown(f"attribute {unparse(e)}")
         if isinstance(e, ast.UnaryOp):
             v = self.ev(e.operand)
@@ -277,6 +280,22 @@ class Evaluator:
                     return getattr(base, f.attr)(*args)
                 except Exception as ex:
                     raise Unknown(f"{f.attr}: {ex}")
+        # struct.Struct objects (module-level constants such as HEADER = Struct("!BBH"))
+        if isinstance(f, ast.Name) and f.id == "Struct" or unparse(f) == "struct.Struct":
+            import struct as _struct
+            return _struct.Struct(*[self.ev(a) for a in e.args])
+        if isinstance(f, ast.Attribute) and f.attr in ("pack", "unpack", "unpack_from", "iter_unpack"):
+            import struct as _struct
+            try:
+                base = self.ev(f.value)
+            except Unknown:
+                base = None
+            if isinstance(base, _struct.Struct):
+                try:
+                    r = getattr(base, f.attr)(*[self.ev(a) for a in e.args])
+                    return list(r) if f.attr == "iter_unpack" else r
+                except _struct.error:
+                    raise Raised("struct.error", e)
         # in-repo pure function: evaluate its body
         if isinstance(f, ast.Name):
             r = self.prog.resolve_name(self.module, f.id)
